@@ -10,6 +10,9 @@ import Juniper.Proofs.HelpersMinK
 import Juniper.Proofs.HelpersMaps
 import Juniper.Proofs.HelpersMisc
 import Juniper.Proofs.HelpersRand
+import Juniper.Proofs.HelpersLoops
+import Juniper.Proofs.HelpersWrappers
+import Juniper.Proofs.HelpersShapes
 /-!
 # C19 — pure helpers match their specification (property theorems)
 
@@ -26,6 +29,7 @@ contract is checked on the real sampler on every run and the distribution is tes
 -/
 namespace Juniper.Props.C19
 open Juniper.Gen.Helpers Juniper.Model.Helpers Juniper.Spec.Helpers
+open Juniper.Model.Stdlib (Sl)
 
 variable {α : Type}
 
@@ -175,16 +179,16 @@ theorem popFirstMin_meets_heap_spec {ε : Type} : PopSpec (popFirstMin (α := ε
   Proofs.Helpers.popFirstMin_spec
 
 /-- `MergeSlices`: the result is `Merge` drained (so a sorted permutation of all inputs), and it is
-stored into the caller's `out` array exactly when that has room for all items. -/
+stored into the caller's `out` array exactly when that has room for all items (`Grow(out[:0], n)`:
+generated arguments, documented contract of `slices.Grow`). -/
 theorem mergeSlices_spec (less : α → α → Bool)
     (pop : ((α × Nat) → (α × Nat) → Bool) → List (α × Nat) → Option ((α × Nat) × List (α × Nat)))
-    (hp : PopSpec pop) (outCap : Int) (ins : List (List α)) :
+    (hp : PopSpec pop) (outCap : Int) (hc : 0 ≤ outCap) (ins : List (List α)) :
     (mergeSlices less pop outCap ins).1.Perm ins.flatten ∧
     (StrictWeak less → (∀ l ∈ ins, SortedBy less l) → SortedBy less (mergeSlices less pop outCap ins).1) ∧
-    ((mergeSlices less pop outCap ins).2 = true ↔ ((ins.map List.length).sum : Int) ≤ outCap) := by
-  refine ⟨(Proofs.Helpers.merge_sorted_perm less pop hp ins).1, (Proofs.Helpers.merge_sorted_perm less pop hp ins).2, ?_⟩
-  show decide _ = true ↔ _
-  exact decide_eq_true_iff
+    ((mergeSlices less pop outCap ins).2 = true ↔ ((ins.map List.length).sum : Int) ≤ outCap) :=
+  ⟨(Proofs.Helpers.merge_sorted_perm less pop hp ins).1, (Proofs.Helpers.merge_sorted_perm less pop hp ins).2,
+    Proofs.Helpers.mergeSlices_reuse less pop outCap hc ins⟩
 
 example : mergeSlices (fun a b => decide (a < b)) popFirstMin 3 [[1, 3], [2]] = ([1, 2, 3], true) := by decide
 
@@ -399,5 +403,409 @@ theorem shuffle_perm (a : List α) (swaps : List (Int × Int))
   Proofs.Helpers.shuffle_perm a swaps h
 
 example : applySwaps [(0, 2), (1, 2)] [1, 2, 3] = some [3, 1, 2] := by decide
+
+/-! # The remaining exported helpers (one theorem each)
+
+Models: `Model/HelpersMore.lean`. Helpers with a loop of their own mirror the loop through the
+regenerated guards / values / statement lists. Thin wrappers are the regenerated body
+(`Gen.Helpers.<name>W`) applied to the *documented contract* of the standard-library callee
+(`Model/HelpersStdlib.lean`: trusted, compared with the real behaviour by the correspondence check on
+every run). `Sl α` is a slice value with its backing array up to the capacity (`arr`), its length and
+whether that array was allocated by the call (`fresh`); `Sl.callerAfter s r` is the caller's array
+after a call that was given `s` and returned `r`. A panic is `none`. -/
+
+/-! ## xslices: helpers with their own loop -/
+
+variable {β : Type}
+
+/-- `All`: "returns true if f(s[i]) returns true for all i. Trivially, returns true if s is empty." -/
+theorem all_spec (f : α → Bool) (s : List α) : all f s = true ↔ ∀ x ∈ s, f x = true :=
+  Proofs.Helpers.all_iff f s
+
+example : all (fun x => x % 2 == 1) [1, 3, 4] = false ∧ all (fun x => x % 2 == 1) [1, 3] = true ∧
+    all (fun _ => false) ([] : List Int) = true := by decide
+
+/-- `CountFunc`: "the number of items in s for which f returns true." -/
+theorem countFunc_spec (f : α → Bool) (s : List α) : countFunc f s = (s.countP f : Int) :=
+  Proofs.Helpers.countFunc_eq f s
+
+/-- `Count`: "the number of times x appears in s." (generated body: `CountFunc` with `x == ·`) -/
+theorem count_spec [DecidableEq α] (s : List α) (x : α) : count s x = (s.count x : Int) :=
+  Proofs.Helpers.count_eq s x
+
+example : countFunc (fun x => x % 2 == 1) [1, 2, 3, 5] = 3 ∧ count [1, 2, 1, 3] 1 = 2 ∧ count [1, 2] 7 = 0 := by decide
+
+/-- `Fill`: "fills s with copies of x" — the caller's array afterwards. -/
+theorem fill_spec (s : List α) (x : α) : fill s x = List.replicate s.length x :=
+  Proofs.Helpers.fill_eq s x
+
+/-- `Clear`: "fills s with the zero value of T." (generated body: `Fill(s, zero)`) -/
+theorem clear_spec (zero : α) (s : List α) : clear zero s = List.replicate s.length zero :=
+  Proofs.Helpers.clear_eq zero s
+
+example : fill [1, 2, 3] 9 = [9, 9, 9] ∧ clear 0 [1, 2] = [0, 0] := by decide
+
+/-- `Group`: "a map from u to all items of s for which f(s[i]) returned u": a key is present iff some
+item maps to it, and it holds exactly those items (the code keeps them in their order in `s`). -/
+theorem group_spec (f : α → κ) (s : List α) (u : κ) :
+    mget (group f s) u =
+      if s.any (fun x => decide (f x = u)) then some (s.filter (fun x => decide (f x = u))) else none :=
+  Proofs.Helpers.group_get f s u
+
+example : group (fun x => x % 2) [1, 2, 3, 4, 5] = [(1, [1, 3, 5]), (0, [2, 4])] := by decide
+
+/-- `Join`: "joins together the contents of each in" — never panics; the result is the concatenation,
+allocated once with exactly the capacity needed. -/
+theorem join_spec (zero : α) (ins : List (List α)) :
+    join zero ins = some (ins.flatten, some (ins.flatten.length : Int)) :=
+  Proofs.Helpers.join_eq zero ins
+
+example : join 0 [[1, 2], [], [3]] = some ([1, 2, 3], some 3) ∧ join 0 ([] : List (List Int)) = some ([], some 0) := by
+  decide
+
+/-- `LastIndex`: "the last index of x in s, or -1 if x is not in s" (never out of range). -/
+theorem lastIndex_spec [DecidableEq α] (s : List α) (x : α) :
+    ∃ r : Int, lastIndex s x = some r ∧ -1 ≤ r ∧ r < s.length ∧
+      (r = -1 → x ∉ s) ∧ (0 ≤ r → s[r.toNat]? = some x ∧ ∀ j : Nat, r < j → s[j]? ≠ some x) :=
+  Proofs.Helpers.lastIndex_spec s x
+
+/-- `LastIndexFunc`: "the last index in s for which f(s[i]) returns true, or -1 if there are no such
+items." -/
+theorem lastIndexFunc_spec (s : List α) (f : α → Bool) :
+    ∃ r : Int, lastIndexFunc s f = some r ∧ -1 ≤ r ∧ r < s.length ∧
+      (r = -1 → ∀ y ∈ s, f y = false) ∧
+      (0 ≤ r → (∃ y, s[r.toNat]? = some y ∧ f y = true) ∧
+        ∀ j : Nat, r < j → ∀ y, s[j]? = some y → f y = false) :=
+  Proofs.Helpers.lastIndexFunc_spec s f
+
+example : lastIndex [1, 2, 1, 3] 1 = some 2 ∧ lastIndex [1, 2] 7 = some (-1) ∧
+    lastIndexFunc [1, 2, 4, 3] (fun x => x % 2 == 0) = some 2 ∧ lastIndex ([] : List Int) 1 = some (-1) := by decide
+
+/-- `Map`: "creates a new slice by applying f to each element of s." -/
+theorem map_spec (zero : β) (f : α → β) (s : List α) : map zero f s = some (s.map f) :=
+  Proofs.Helpers.map_eq zero f s
+
+/-- `Reduce`: "reduces s to a single value using the reduction function f" — the left fold from
+`initial`. -/
+theorem reduce_spec (zero : β) (s : List α) (initial : β) (f : β → α → β) :
+    reduce zero s initial f = s.foldl f initial :=
+  Proofs.Helpers.reduce_eq zero s initial f
+
+/-- `Repeat`: "a slice with length n where every item is s" (panics for a negative `n`). -/
+theorem repeat_spec (zero x : α) (n : Int) :
+    repeatN zero x n = if n < 0 then none else some (List.replicate n.toNat x) :=
+  Proofs.Helpers.repeatN_eq zero x n
+
+example : map 0 (fun x => 2 * x) [1, 2, 3] = some [2, 4, 6] ∧ reduce 0 [1, 2, 3] 10 (fun a x => a - x) = 4 ∧
+    repeatN 0 7 3 = some [7, 7, 7] ∧ repeatN 0 7 (-1) = none := by decide
+
+/-! ## xslices: wrappers over package `slices` -/
+
+/-- `Any`: "returns true if f(s[i]) returns true for any i. Trivially, returns false if s is empty." -/
+theorem any_spec (s : Sl α) (f : α → Bool) : any s f = true ↔ ∃ x ∈ s.items, f x = true := by
+  simp [any, anyW, Model.Stdlib.containsFunc]
+
+example : any (Sl.ofList [2, 4, 5]) (fun x => x % 2 == 1) = true ∧ any (Sl.ofList ([] : List Int)) (fun _ => true) = false := by
+  decide
+
+/-- `Clone`: "creates a new slice and copies the elements of s into it" — same items, an array of its
+own, the caller's array untouched. -/
+theorem clone_spec (s : Sl α) :
+    (clone s).items = s.items ∧ (clone s).fresh = true ∧ Sl.callerAfter s (clone s) = s.arr :=
+  ⟨Proofs.Helpers.items_clone s, rfl, rfl⟩
+
+example : (clone (Sl.withSpare [1, 2] [-7])).items = [1, 2] ∧ (clone (Sl.withSpare [1, 2] [-7])).fresh = true ∧
+    Sl.callerAfter (Sl.withSpare [1, 2] [-7]) (clone (Sl.withSpare [1, 2] [-7])) = [1, 2, -7] := by decide
+
+/-- `Compact`: "only the first item from each contiguous run of the same item", in a new slice (the
+input is not modified). -/
+theorem compact_spec [DecidableEq α] (zero : α) (s : Sl α) :
+    (compact zero s).items = firstOfRuns (fun a b => decide (a = b)) s.items ∧
+    (compact zero s).items.Sublist s.items ∧
+    (compact zero s).fresh = true ∧ Sl.callerAfter s (compact zero s) = s.arr := by
+  have h : (compact zero s).items = firstOfRuns (fun a b => decide (a = b)) s.items := by
+    show (Sl.shrinkTo zero (Model.Stdlib.clone s) _).items = _
+    rw [Proofs.Helpers.items_shrinkTo, Proofs.Helpers.items_clone, Proofs.Helpers.compactBy_eq]
+  exact ⟨h, h ▸ Proofs.Helpers.firstOfRuns_sublist _ _, rfl, rfl⟩
+
+/-- `CompactFunc`: "only the first item from each contiguous run of items for which eq returns true",
+in a new slice. -/
+theorem compactFunc_spec (zero : α) (s : Sl α) (eq : α → α → Bool) :
+    (compactFunc zero s eq).items = firstOfRuns eq s.items ∧
+    (compactFunc zero s eq).fresh = true ∧ Sl.callerAfter s (compactFunc zero s eq) = s.arr := by
+  refine ⟨?_, rfl, rfl⟩
+  show (Sl.shrinkTo zero (Model.Stdlib.clone s) _).items = _
+  rw [Proofs.Helpers.items_shrinkTo, Proofs.Helpers.items_clone, Proofs.Helpers.compactBy_eq]
+
+/-- `CompactInPlace`: the same items, "done in-place and so modifies the contents of s. The modified
+slice is returned": the result is the front of `s`'s own array; the vacated elements are zeroed
+(documented by `slices.Compact`), the spare capacity is untouched. -/
+theorem compactInPlace_spec [DecidableEq α] (zero : α) (s : Sl α) :
+    (compactInPlace zero s).items = firstOfRuns (fun a b => decide (a = b)) s.items ∧
+    (compactInPlace zero s).fresh = s.fresh ∧
+    (compactInPlace zero s).arr = (compactInPlace zero s).items ++
+      List.replicate (s.items.length - (compactInPlace zero s).items.length) zero ++ s.arr.drop s.len := by
+  have hc : compactInPlace zero s =
+      Sl.shrinkTo zero s (Model.Stdlib.compactBy (fun a b => decide (a = b)) s.items) := rfl
+  obtain ⟨h1, h2, h3⟩ := Proofs.Helpers.shrinkTo_spec zero s (Model.Stdlib.compactBy (fun a b => decide (a = b)) s.items)
+  rw [hc]
+  refine ⟨by rw [h1, Proofs.Helpers.compactBy_eq], h2, ?_⟩
+  rw [h3, h1]
+
+/-- `CompactInPlaceFunc`: as `CompactFunc`, in place. -/
+theorem compactInPlaceFunc_spec (zero : α) (s : Sl α) (eq : α → α → Bool) :
+    (compactInPlaceFunc zero s eq).items = firstOfRuns eq s.items ∧
+    (compactInPlaceFunc zero s eq).fresh = s.fresh ∧
+    (compactInPlaceFunc zero s eq).arr = (compactInPlaceFunc zero s eq).items ++
+      List.replicate (s.items.length - (compactInPlaceFunc zero s eq).items.length) zero ++ s.arr.drop s.len := by
+  have hc : compactInPlaceFunc zero s eq = Sl.shrinkTo zero s (Model.Stdlib.compactBy eq s.items) := rfl
+  obtain ⟨h1, h2, h3⟩ := Proofs.Helpers.shrinkTo_spec zero s (Model.Stdlib.compactBy eq s.items)
+  rw [hc]
+  refine ⟨by rw [h1, Proofs.Helpers.compactBy_eq], h2, ?_⟩
+  rw [h3, h1]
+
+example : firstOfRuns (fun a b => decide (a = b)) [1, 1, 2, 2, 2, 1] = [1, 2, 1] ∧
+    (compact 0 (Sl.ofList [1, 1, 2, 2, 2, 1])).items = [1, 2, 1] ∧
+    (compactInPlace 0 (Sl.withSpare [1, 1, 2, 2, 2, 1] [-7])).arr = [1, 2, 1, 0, 0, 0, -7] ∧
+    (compactFunc 0 (Sl.ofList [1, 3, 2, 5]) (fun a b => a % 2 == b % 2)).items = [1, 2, 5] := by decide
+
+/-- `Equal`: "true if a and b contain the same items in the same order." -/
+theorem equal_spec [DecidableEq α] (a b : Sl α) : equal a b = true ↔ a.items = b.items := by
+  simp [equal, equalW, Model.Stdlib.equal]
+
+/-- `EqualFunc`: "... the same items in the same order according to eq": equal lengths and `eq` on
+every pair of corresponding items. -/
+theorem equalFunc_spec (a b : Sl α) (eq : α → α → Bool) :
+    equalFunc a b eq = true ↔ a.items.length = b.items.length ∧ ∀ p ∈ a.items.zip b.items, eq p.1 p.2 = true :=
+  Proofs.Helpers.equalFuncL_iff eq a.items b.items
+
+example : equal (Sl.ofList [1, 2]) (Sl.withSpare [1, 2] [9]) = true ∧ equal (Sl.ofList [1, 2]) (Sl.ofList [1]) = false ∧
+    equalFunc (Sl.ofList [1, 2]) (Sl.ofList [3, 4]) (fun a b => a % 2 == b % 2) = true := by decide
+
+/-- `Filter`: "only the elements of s for which keep() returns true in the same order", in a new
+slice (the polarity adapter `!keep(t)` is part of the generated body). -/
+theorem filter_spec (zero : α) (s : Sl α) (keep : α → Bool) :
+    (filter zero s keep).items = s.items.filter keep ∧
+    (filter zero s keep).fresh = true ∧ Sl.callerAfter s (filter zero s keep) = s.arr := by
+  refine ⟨?_, rfl, rfl⟩
+  show (Sl.shrinkTo zero (Model.Stdlib.clone s) _).items = _
+  rw [Proofs.Helpers.items_shrinkTo, Proofs.Helpers.items_clone]
+  simp
+
+/-- `FilterInPlace`: the same, "done in-place and so modifies the contents of s. The modified slice is
+returned": front of `s`'s own array, vacated elements zeroed, spare capacity untouched. -/
+theorem filterInPlace_spec (zero : α) (s : Sl α) (keep : α → Bool) :
+    (filterInPlace zero s keep).items = s.items.filter keep ∧
+    (filterInPlace zero s keep).fresh = s.fresh ∧
+    (filterInPlace zero s keep).arr = s.items.filter keep ++
+      List.replicate (s.items.length - (s.items.filter keep).length) zero ++ s.arr.drop s.len := by
+  have e : (fun x => !(fun t => !keep t) x) = keep := by funext x; simp
+  have hc : filterInPlace zero s keep = Sl.shrinkTo zero s (s.items.filter (fun x => !(fun t => !keep t) x)) := rfl
+  rw [hc, e]
+  exact Proofs.Helpers.shrinkTo_spec zero s _
+
+example : (filter 0 (Sl.ofList [1, 2, 3, 4]) (fun x => x % 2 == 0)).items = [2, 4] ∧
+    (filterInPlace 0 (Sl.withSpare [1, 2, 3, 4] [-7]) (fun x => x % 2 == 0)).arr = [2, 4, 0, 0, -7] := by decide
+
+/-- `Grow`: "grows s's capacity by reallocating, if necessary, to fit n more elements ... does not
+change the length of s": same items, room for `n` more; `s` itself is returned when it already has
+the room, otherwise a new array; a negative `n` panics. -/
+theorem grow_spec (zero : α) (s : Sl α) (n : Int) :
+    (n < 0 → grow zero s n = none) ∧
+    (0 ≤ n → ∃ r, grow zero s n = some r ∧ r.items = s.items ∧ r.items.length + n.toNat ≤ r.cap ∧
+      (s.len + n.toNat ≤ s.cap → r = s) ∧ (s.cap < s.len + n.toNat → r.fresh = true)) :=
+  Proofs.Helpers.grow_spec zero s n
+
+example : grow 0 (Sl.withSpare [1, 2] [-7]) 1 = some (Sl.withSpare [1, 2] [-7]) ∧
+    (grow 0 (Sl.withSpare [1, 2] [-7]) 2).map (·.fresh) = some true ∧ grow 0 (Sl.ofList [1]) (-1) = none := by decide
+
+/-- `Index`: "the first index of x in s, or -1 if x is not in s." -/
+theorem index_spec [DecidableEq α] (s : Sl α) (x : α) :
+    -1 ≤ index s x ∧ index s x < s.items.length ∧ (index s x = -1 ↔ x ∉ s.items) ∧
+    (∀ i : Nat, index s x = i → s.items[i]? = some x ∧ ∀ j : Nat, j < i → s.items[j]? ≠ some x) := by
+  obtain ⟨h1, h2, h3, h4⟩ := Proofs.Helpers.indexFunc_spec s (fun y => decide (y = x))
+  refine ⟨h1, h2, ?_, fun i hi => ?_⟩
+  · rw [show index s x = Model.Stdlib.indexFunc s (fun y => decide (y = x)) from rfl, h3]
+    constructor
+    · intro h hx; simpa using h x hx
+    · intro h y hy; simp only [decide_eq_false_iff_not]; intro e; exact h (e ▸ hy)
+  · obtain ⟨⟨y, hy, hyx⟩, hlt⟩ := h4 i hi
+    have : y = x := by simpa using hyx
+    subst this
+    exact ⟨hy, fun j hj hjx => by simpa using hlt j hj y hjx⟩
+
+/-- `IndexFunc`: "the first index in s for which f(s[i]) returns true, or -1 if there are no such
+items." -/
+theorem indexFunc_spec (s : Sl α) (f : α → Bool) :
+    -1 ≤ indexFunc s f ∧ indexFunc s f < s.items.length ∧
+    (indexFunc s f = -1 ↔ ∀ y ∈ s.items, f y = false) ∧
+    (∀ i : Nat, indexFunc s f = i →
+      (∃ y, s.items[i]? = some y ∧ f y = true) ∧ ∀ j : Nat, j < i → ∀ y, s.items[j]? = some y → f y = false) :=
+  Proofs.Helpers.indexFunc_spec s f
+
+example : index (Sl.ofList [3, 1, 2, 1]) 1 = 1 ∧ index (Sl.ofList [3, 1]) 7 = -1 ∧
+    indexFunc (Sl.ofList [3, 1, 2, 4]) (fun x => x % 2 == 0) = 2 := by decide
+
+/-- `Insert`: "inserts the given values starting at index idx, shifting elements after idx to the
+right and growing the slice to make room. Insert will expand the length of the slice up to its
+capacity if it can": panics exactly for `idx` outside `[0, len]` (documented by `slices.Insert`);
+otherwise the items are `s[:idx] ++ values ++ s[idx:]`, stored in `s`'s own array when
+`len + len(values) ≤ cap` (the rest of the spare capacity untouched) and in a new array otherwise. -/
+theorem insert_spec (s : Sl α) (idx : Int) (vals : List α) (hs : s.WF) :
+    (insertAt s idx vals = none ↔ idx < 0 ∨ (s.len : Int) < idx) ∧
+    (∀ r, insertAt s idx vals = some r →
+      r.items = s.items.take idx.toNat ++ vals ++ s.items.drop idx.toNat ∧
+      (s.len + vals.length ≤ s.cap → r.fresh = s.fresh ∧ r.arr = r.items ++ s.arr.drop (s.len + vals.length)) ∧
+      (s.cap < s.len + vals.length → r.fresh = true)) :=
+  Proofs.Helpers.insertAt_spec s idx vals hs
+
+example : (insertAt (Sl.withSpare [1, 2, 3] [-7, -7, -7]) 1 [8, 9]).map (fun r => (r.items, r.arr, r.fresh)) =
+      some ([1, 8, 9, 2, 3], [1, 8, 9, 2, 3, -7], false) ∧
+    (insertAt (Sl.withSpare [1, 2, 3] [-7]) 1 [8, 9]).map (fun r => (r.items, r.fresh)) = some ([1, 8, 9, 2, 3], true) ∧
+    insertAt (Sl.ofList [1, 2]) 3 [8] = none := by decide
+
+/-- `Remove`: "removes n elements from s starting at index idx and returns the modified slice"
+(generated body: `slices.Delete(s, idx, idx+n)`): panics exactly when `s[idx:idx+n]` is not a valid
+range; otherwise order is preserved, the result is the front of `s`'s own array and the `n` vacated
+elements at the end are zeroed (documented by `slices.Delete`). -/
+theorem remove_spec (zero : α) (s : Sl α) (idx n : Int) (hs : s.WF) :
+    (remove zero s idx n = none ↔ idx < 0 ∨ n < 0 ∨ (s.len : Int) < idx + n) ∧
+    (∀ r, remove zero s idx n = some r →
+      r.items = s.items.take idx.toNat ++ s.items.drop (idx + n).toNat ∧ r.fresh = s.fresh ∧
+      r.arr = r.items ++ List.replicate n.toNat zero ++ s.arr.drop s.len) :=
+  Proofs.Helpers.remove_spec zero s idx n hs
+
+example : (remove 0 (Sl.withSpare [1, 2, 3, 4] [-7]) 1 2).map (fun r => (r.items, r.arr, r.fresh)) =
+      some ([1, 4], [1, 4, 0, 0, -7], false) ∧ remove 0 (Sl.ofList [1, 2]) 1 2 = none := by decide
+
+/-! ## xsort: derived comparisons, `Reverse`, `OrderedLess`, the `sort.Slice*` adapters -/
+
+/-- `Greater`: "true if a > b according to less" — `b` is less than `a`. (generated function) -/
+theorem greater_spec (less : α → α → Bool) (a b : α) : greaterOf less a b = less b a := rfl
+
+/-- `LessOrEqual`: "true if a <= b according to less": for a strict weak order, `a` is less than `b`
+or they are equivalent. -/
+theorem lessOrEqual_spec (less : α → α → Bool) (hw : StrictWeak less) (a b : α) :
+    lessOrEqualOf less a b = true ↔ less a b = true ∨ Equiv less a b = true := by
+  have := @Proofs.Helpers.sw_asymm _ less hw a b
+  simp only [lessOrEqualOf, lessOrEqual, Equiv]
+  cases h1 : less a b <;> cases h2 : less b a <;> simp_all
+
+/-- `GreaterOrEqual`: "true if a >= b according to less". -/
+theorem greaterOrEqual_spec (less : α → α → Bool) (hw : StrictWeak less) (a b : α) :
+    greaterOrEqualOf less a b = true ↔ less b a = true ∨ Equiv less a b = true := by
+  have := @Proofs.Helpers.sw_asymm _ less hw a b
+  simp only [greaterOrEqualOf, greaterOrEqual, Equiv]
+  cases h1 : less a b <;> cases h2 : less b a <;> simp_all
+
+/-- `Equal`: "true if a == b according to less" — neither is less than the other. -/
+theorem sortEqual_spec (less : α → α → Bool) (a b : α) : sortEqualOf less a b = Equiv less a b := rfl
+
+example : greater false true = true ∧ lessOrEqual true false = true ∧ lessOrEqual false true = false ∧
+    greaterOrEqual false false = true ∧ sortEqual false false = true ∧ sortEqual true false = false := by decide
+
+/-- `Reverse`: "a Less that orders elements in the opposite order of the provided less": the closure
+is `less(b, a)`; it is again a strict weak order, and a list is sorted by it iff its reversal is
+sorted by `less`. -/
+theorem sortReverse_spec (less : α → α → Bool) :
+    (∀ a b, reverseOf less a b = less b a) ∧
+    (StrictWeak less → StrictWeak (reverseOf less)) ∧
+    (∀ l, SortedBy (reverseOf less) l ↔ SortedBy less l.reverse) := by
+  refine ⟨fun _ _ => rfl, fun hw => ⟨fun a => hw.irrefl a, fun a b c h1 h2 => hw.trans c b a h2 h1,
+    fun a b c h1 h2 => hw.negTrans c b a h2 h1⟩, fun l => ?_⟩
+  unfold SortedBy
+  rw [List.pairwise_reverse]
+  rfl
+
+example : reverseOf (fun a b => decide (a < b)) 2 1 = true ∧ reverseOf (fun a b => decide (a < b)) 1 2 = false := by decide
+
+/-- `OrderedLess`: "an implementation of Less for cmp.Ordered types by using the < operator" (at
+`int`): it is `<`, a strict weak order. -/
+theorem orderedLess_spec : (∀ a b : Int, orderedLess a b = true ↔ a < b) ∧ StrictWeak orderedLess := by
+  have h : ∀ a b : Int, orderedLess a b = decide (a < b) := fun _ _ => rfl
+  refine ⟨fun a b => by simp [h], ⟨fun a => by simp [h], fun a b c => ?_, fun a b c => ?_⟩⟩
+  · simp only [h, decide_eq_true_eq]; omega
+  · simp only [h, decide_eq_false_iff_not]; omega
+
+example : orderedLess (-1) 2 = true ∧ orderedLess 2 2 = false ∧ orderedLess 3 2 = false := by decide
+
+/-- `Slice`: "sorts x in-place using the given less function" (`sort.Slice` with the index adapter
+`less(x[i], x[j])`, generated): the items afterwards are a permutation of the items before, sorted
+by `less`; in `x`'s own array, spare capacity untouched. Which arrangement of equivalent items
+results is left open by `sort.Slice`. -/
+theorem sortSlice_spec (zero : α) (x : Sl α) (less : α → α → Bool) (hw : StrictWeak less) :
+    (sortSlice zero x less).items.Perm x.items ∧ SortedBy less (sortSlice zero x less).items ∧
+    (sortSlice zero x less).fresh = x.fresh ∧
+    (sortSlice zero x less).arr = (sortSlice zero x less).items ++ x.arr.drop x.len := by
+  obtain ⟨h1, h2, h3⟩ := Proofs.Helpers.sortSliceStable_items zero x less
+  refine ⟨?_, ?_, h2, ?_⟩
+  · show (sortSliceStable zero x less).items.Perm _
+    rw [h1]; exact Proofs.Helpers.sortStable_perm less _
+  · show SortedBy less (sortSliceStable zero x less).items
+    rw [h1]; exact Proofs.Helpers.sortStable_sorted less hw _
+  · show (sortSliceStable zero x less).arr = (sortSliceStable zero x less).items ++ _
+    rw [h1]; exact h3
+
+/-- `SliceStable`: "stably sorts x in-place": as `Slice`, and for every `a` the items equivalent to `a`
+keep their original relative order. -/
+theorem sortSliceStable_spec (zero : α) (x : Sl α) (less : α → α → Bool) (hw : StrictWeak less) :
+    (sortSliceStable zero x less).items.Perm x.items ∧ SortedBy less (sortSliceStable zero x less).items ∧
+    (∀ a, (sortSliceStable zero x less).items.filter (Equiv less a) = x.items.filter (Equiv less a)) ∧
+    (sortSliceStable zero x less).fresh = x.fresh ∧
+    (sortSliceStable zero x less).arr = (sortSliceStable zero x less).items ++ x.arr.drop x.len := by
+  obtain ⟨h1, h2, h3⟩ := Proofs.Helpers.sortSliceStable_items zero x less
+  rw [h1]
+  exact ⟨Proofs.Helpers.sortStable_perm less _, Proofs.Helpers.sortStable_sorted less hw _,
+    fun a => Proofs.Helpers.sortStable_stable less hw a _, h2, h3⟩
+
+/-- `SliceIsSorted`: "true if x is in sorted order according to the given less function". -/
+theorem sortSliceIsSorted_spec (zero : α) (x : Sl α) (less : α → α → Bool) (hw : StrictWeak less) (hx : x.WF) :
+    sortSliceIsSorted zero x less = true ↔ SortedBy less x.items :=
+  Proofs.Helpers.sortSliceIsSorted_iff zero x less hw hx
+
+example : (sortSlice 0 (Sl.withSpare [3, 1, 2] [-7]) (fun a b => decide (a < b))).arr = [1, 2, 3, -7] ∧
+    (Sl.withSpare [3, 1, 2] [-7]).WF := ⟨by decide, by simp [Sl.WF, Sl.withSpare]⟩
+
+example : (sortSliceStable 0 (Sl.ofList [5, 2, 4, 3]) (fun a b => decide (a / 2 < b / 2))).items = [2, 3, 5, 4] ∧
+    sortSliceIsSorted 0 (Sl.ofList [2, 3, 5, 4]) (fun a b => decide (a / 2 < b / 2)) = true ∧
+    sortSliceIsSorted 0 (Sl.ofList [2, 5, 3]) (fun a b => decide (a / 2 < b / 2)) = false := by decide
+
+/-! ## xmaps.Set (sets as duplicate-free lists) -/
+
+/-- `Set.Add`: "adds item to the set." -/
+theorem setAdd_spec (s : List κ) (item y : κ) : y ∈ setAdd s item ↔ y = item ∨ y ∈ s :=
+  Proofs.Helpers.mem_setAdd s item y
+
+/-- `Set.Remove`: "removes item from the set." -/
+theorem setRemove_spec (s : List κ) (item y : κ) : y ∈ setRemove s item ↔ y ∈ s ∧ y ≠ item :=
+  Proofs.Helpers.mem_setRemove s item y
+
+/-- `Set.Contains`: "true if item is in the set." -/
+theorem setContains_spec (s : List κ) (item : κ) : setContains s item = true ↔ item ∈ s :=
+  Proofs.Helpers.setContains_iff s item
+
+/-- `SetFromSlice`: "a Set whose elements are items." -/
+theorem setFromSlice_spec (items : List κ) :
+    (∀ y, y ∈ setFromSlice items ↔ y ∈ items) ∧ (setFromSlice items).Nodup :=
+  Proofs.Helpers.setFromSlice_spec items
+
+example : setAdd [1, 2] 3 = [1, 2, 3] ∧ setAdd [1, 2] 2 = [1, 2] ∧ setRemove [1, 2, 3] 2 = [1, 3] ∧
+    setContains [1, 2] 2 = true ∧ setContains [1, 2] 5 = false ∧ setFromSlice [3, 1, 3, 2, 1] = [3, 1, 2] := by decide
+
+/-! ## xmath.Min / Max (at `int`; generated bodies over the builtins) -/
+
+/-- `Min`: "the minimum of a and b based on the < operator." -/
+theorem min_spec (a b : Int) : xmin a b ≤ a ∧ xmin a b ≤ b ∧ (xmin a b = a ∨ xmin a b = b) := by
+  have h : xmin a b = if a ≤ b then a else b := rfl
+  rw [h]
+  split <;> omega
+
+/-- `Max`: "the maximum of a and b based on the > operator." -/
+theorem max_spec (a b : Int) : a ≤ xmax a b ∧ b ≤ xmax a b ∧ (xmax a b = a ∨ xmax a b = b) := by
+  have h : xmax a b = if a ≤ b then b else a := rfl
+  rw [h]
+  split <;> omega
+
+example : xmin 3 (-2) = -2 ∧ xmax 3 (-2) = 3 ∧ xmin 4 4 = 4 := by decide
 
 end Juniper.Props.C19
